@@ -260,5 +260,7 @@ LEVEL_TEXT = ('C20_sccs_correct (Tarjan.v): UNBOUNDED — for every digraph (any
               'on the implementation output is equivalent to the relational statement.  The model (construction API incl. unknown '
               'nodes/KeyError, set semantics, Tarjan machine) is compared with the live DiGraph on every run (exhaustive <= 3 nodes '
               'quick / <= 4 thorough, random to 24 nodes).')
-LEVEL_NOTE = ('The bounded theorem (<= 3 nodes, by evaluation) is kept as a cross-check. '
+LEVEL_NOTE = ('Graphs beyond 24 nodes are covered only by the theorem about the model, not by the comparison with the live code: a change that '
+              'acts only on big graphs (seed C20s: a bound on the DFS work stack above 1000 pending visits) is not detected. '
+              'The bounded theorem (<= 3 nodes, by evaluation) is kept as a cross-check. '
               'Set iteration order is abstracted: outputs compared as sets of sets.')
